@@ -23,4 +23,6 @@ Extraction "model_c01.ml" keepN keepZ enc dec wfv wfs hex unhex norm wfa api_hol
   ParameterChangeAction HardForkInitiationAction TreasuryWithdrawalsAction NoConfidenceAction
   UpdateCommitteeAction NewConstitutionAction MetadataList MetadataMap PlutusMap ConstrPlutusData
   BigInt Redeemer RedeemerTag Language CostModel NetworkId Vkey AssetNameS PlutusScriptBytes
-  MIRToStakeCredentials TransactionBodies TransactionWitnessSets TransactionUnspentOutput.
+  MIRToStakeCredentials TransactionBodies TransactionWitnessSets TransactionUnspentOutput
+  ScriptPubkey ScriptAll ScriptAny ScriptNOfK TimelockStart TimelockExpiry AssetNames GenesisHashes ScriptHashes
+  RewardAddresses TransactionMetadatumLabels BigNum VersionedBlock.
